@@ -79,3 +79,49 @@ pub proof fn lemma_valb_bound(s: Seq<u8>, bits: nat, n: nat)
         assert(valb(s, bits, m) + x * pm < pm * pb) by (nonlinear_arith) requires valb(s, bits, m) < pm, x + 1 <= pb;
     }
 }
+
+/// adding a multiple of 2^c above the cut: (u + x * 2^(c+k)) / 2^c == u / 2^c + x * 2^k and the low c bits are unchanged
+pub proof fn lemma_add_high(u: nat, x: nat, c: nat, k: nat)
+    ensures
+        (u + x * vstd::arithmetic::power2::pow2(c + k)) / vstd::arithmetic::power2::pow2(c) == u / vstd::arithmetic::power2::pow2(c) + x * vstd::arithmetic::power2::pow2(k),
+        (u + x * vstd::arithmetic::power2::pow2(c + k)) % vstd::arithmetic::power2::pow2(c) == u % vstd::arithmetic::power2::pow2(c),
+{
+    let pc = vstd::arithmetic::power2::pow2(c); let pk = vstd::arithmetic::power2::pow2(k);
+    vstd::arithmetic::power2::lemma_pow2_pos(c);
+    vstd::arithmetic::power2::lemma_pow2_adds(c, k);
+    let q = u / pc; let r = u % pc;
+    vstd::arithmetic::div_mod::lemma_fundamental_div_mod(u as int, pc as int);
+    vstd::arithmetic::div_mod::lemma_mod_bound(u as int, pc as int);
+    let w = u + x * (pc * pk);
+    assert(w == (q + x * pk) * pc + r) by (nonlinear_arith) requires u == pc * q + r, w == u + x * (pc * pk);
+    vstd::arithmetic::div_mod::lemma_fundamental_div_mod_converse(w as int, pc as int, (q + x * pk) as int, r as int);
+}
+
+/// (lo + c * 2^k) / 2^b == c / 2^(b-k) for lo < 2^k, k <= b
+pub proof fn lemma_div_skip_low(lo: nat, c: nat, k: nat, b: nat)
+    requires lo < vstd::arithmetic::power2::pow2(k), k <= b
+    ensures (lo + c * vstd::arithmetic::power2::pow2(k)) / vstd::arithmetic::power2::pow2(b) == c / vstd::arithmetic::power2::pow2((b - k) as nat)
+{
+    let pk = vstd::arithmetic::power2::pow2(k); let pd = vstd::arithmetic::power2::pow2((b - k) as nat);
+    vstd::arithmetic::power2::lemma_pow2_pos(k);
+    vstd::arithmetic::power2::lemma_pow2_pos((b - k) as nat);
+    vstd::arithmetic::power2::lemma_pow2_adds(k, (b - k) as nat);
+    let w = lo + c * pk;
+    assert(w == c * pk + lo);
+    assert(c * pk == pk * c) by (nonlinear_arith);
+    vstd::arithmetic::div_mod::lemma_fundamental_div_mod_converse(w as int, pk as int, c as int, lo as int);
+    vstd::arithmetic::div_mod::lemma_div_denominator(w as int, pk as int, pd as int);
+}
+
+/// congruent values modulo 2^64 have the same low b bits (b <= 64)
+pub proof fn lemma_low_bits_of_trunc(t: nat, r: nat, h: nat, b: nat)
+    requires t == r + h * vstd::arithmetic::power2::pow2(64), b <= 64
+    ensures t % vstd::arithmetic::power2::pow2(b) == r % vstd::arithmetic::power2::pow2(b)
+{
+    let pb = vstd::arithmetic::power2::pow2(b);
+    vstd::arithmetic::power2::lemma_pow2_pos(b);
+    vstd::arithmetic::power2::lemma_pow2_adds(b, (64 - b) as nat);
+    let m = h * vstd::arithmetic::power2::pow2((64 - b) as nat);
+    assert(t == m * pb + r) by (nonlinear_arith) requires t == r + h * (pb * vstd::arithmetic::power2::pow2((64 - b) as nat)), m == h * vstd::arithmetic::power2::pow2((64 - b) as nat);
+    vstd::arithmetic::div_mod::lemma_mod_multiples_vanish(m as int, r as int, pb as int);
+}
